@@ -185,6 +185,7 @@ int main(int argc, char **argv) {
   setenv("RC_PARAMS", params.c_str(), 1);
   Case lastfail; std::string lastwhy;
   bool ok = rc::check("C05: generated tokens verify and deliver the same content", [&]() {
+    if (v::shrink_exhausted()) return;
     Case c; c.cell = *UNI(0, (int)CELLS.size()); const KA &ka = CELLS[c.cell];
     c.sprov = *UNI(0, 2); c.vprov = *UNI(0, 2); if (gn_unsupported(ka)) c.sprov = c.vprov = 0;
     c.mode = *UNI(0, 4); c.now = *rc::gen::element<long long>(1700000000LL, 0LL, 1LL, 4102444800LL, 1LL << 33); c.iat = *UNI(0, 2); c.nbf_off = *rc::gen::element<long>(0L, 0L, -5L, 30L, 3600L); c.exp_off = *rc::gen::element<long>(0L, 60L, 3600L, -1L, 1L << 31);
@@ -199,7 +200,7 @@ int main(int argc, char **argv) {
     bool nt = sh || ts.depth >= 3 || ts.nonascii || ts.bigint || c.sprov != c.vprov; (void)hd;
     if (nt) { st.nontrivial(fnv(c.token)); if (ts.depth >= 3) st.cls("tree-depth>=3"); if (ts.nonascii) st.cls("tree-non-ascii"); if (ts.bigint) st.cls("tree-int-beyond-2^53"); if (ts.longstr) st.cls("tree-long-string"); if (ts.real) st.cls("tree-real"); if (c.sprov != c.vprov) st.cls("cross-provider"); }
     if (st.want_sample()) st.sample(case_json(c));
-    if (!r.empty()) { std::string sig = "C05:" + r; if (st.is_known(sig)) { st.known_hits[sig]++; return; } lastfail = c; lastwhy = r; RC_FAIL(r); }
+    if (!r.empty()) { std::string sig = "C05:" + r; if (st.is_known(sig)) { st.known_hits[sig]++; return; } lastfail = c; lastwhy = r; v::fail_seen()++; RC_FAIL(r); }
   });
   if (!ok && !lastwhy.empty()) st.violation("C05:" + lastwhy, "generated token does not round-trip: " + lastwhy, case_json(lastfail));
   st.extra["key_alg_cells"] = std::to_string(CELLS.size());
